@@ -36,7 +36,7 @@ func c13Grammar(rng interface{ Intn(int) int }, n int) []string {
 	hosts := []string{"example.com", "app.example.com", "a.b.example.com", "evilexample.com", "example.com.evil.net", "example.comx", "EXAMPLE.COM", "App.Example.Com",
 		"example.com.", "app.example.com.", "evil.net", "evil.net.", "example.com%2eevil.net", "evil.net%23.example.com", "evil.net%2f.example.com", "evil.net\\.example.com",
 		"evil.net\\@app.example.com", "evil.net?.example.com", "evil.net#.example.com", "evil.net/.example.com", "[::1]", "127.0.0.1", "xn--exmple-cua.com", "exаmple.com", ".example.com", "-example.com", "example.com-evil.net",
-		"notexample.com", "example.com@evil.net", "evil.net\t.example.com", "evil.net%09.example.com", "exam\tple.com", "example.org", "app.example.org", "other.test", "app.other.test", "evilother.test", "example.co", "com", "localhost"}
+		"notexample.com", "example.com@evil.net", "evil.net\t.example.com", "evil.net%09.example.com", "exam\tple.com", "example.org", "app.example.org", "other.test", "app.other.test", "evilother.test", "example.co", "com", "localhost", "partner.test", "app.partner.test", "zeta.test", "solo.test", "app.solo.test", "evilsolo.test"}
 	ports := []string{"", "", "", ":443", ":8443", ":0", ":99999", ":", ":80@evil.net", ":443\\@evil.net", ":x"}
 	paths := []string{"", "/", "/cb", "/cb/", "/a/../b", "/a/%2e%2e/b", "/..", "/.%2e/x", "/%2E%2E/x", "/a;b", "//evil.net", "/\\evil.net", "/cb/..", "/...", "/a..b", "/.well-known/x", "/cb%3Fx=1", "/\t../x", "/a/..\\..\\b", "/cb/..\\x", "/a\\..\\b", "/a/.%2e\\b", "/a\\../b", "/..\\"}
 	tails := []string{"", "", "", "?x=1", "?", "#f", "#?x", "?redirect=https://evil.net", "#@evil.net", "\t", " ", "%20"}
@@ -50,7 +50,7 @@ func c13Grammar(rng interface{ Intn(int) int }, n int) []string {
 		"https://evil.net/app.example.com", "https://app.example.com.evil.net", "https://evil.net?app.example.com", "https://app.other.test/cb", "https://evilother.test/cb",
 	}
 	for _, sub := range []string{"", "app.", "a.b.", "www.", "x-y."} {
-		for _, d := range []string{"example.com", "other.test"} {
+		for _, d := range []string{"example.com", "other.test", "partner.test", "zeta.test", "solo.test"} {
 			for _, port := range []string{"", ":443", ":8443"} {
 				for _, path := range []string{"/cb", "/", "", "/a/b.c"} {
 					out = append(out, "https://"+sub+d+port+path)
@@ -77,6 +77,10 @@ func TestVerifC13(t *testing.T) {
 		{"none", nil, nil},
 		// a pattern that does not compile restricts like a pattern nothing matches: it must not fall back to domains only
 		{"domains-and-broken-pattern", []string{"example.com"}, []string{`^https://app\.example\.com/(cb$`}},
+		// clients whose domains no other client has, listed last and first-after-a-longer-list: what one client is
+		// configured with must not show up in (or displace) what another client is allowed
+		{"partner-domains", []string{"partner.test", "zeta.test"}, nil},
+		{"single-domain", []string{"solo.test"}, nil},
 	}
 	var y strings.Builder
 	y.WriteString("openid_connect_idp:\n    clients:\n")
@@ -226,6 +230,7 @@ func TestVerifC13(t *testing.T) {
 			rep.Violate("C13/"+why+"/"+family+"/"+cl.ID, "authorization code redirected to "+cs.Browser+" ("+why+")", cs)
 		} else {
 			rep.Count("accepted_ok", 1)
+			rep.Count("accepted_ok_"+cl.ID, 1)
 			rep.Sample("accepted:"+cl.ID, 2, cs)
 		}
 	}
@@ -246,6 +251,12 @@ func TestVerifC13(t *testing.T) {
 		}
 	}
 	rep.Floor("accepted_ok", 30)
+	for _, c := range clients {
+		if len(c.Domains)+len(c.Patterns) > 0 && c.ID != "domains-and-broken-pattern" {
+			// every configured client is granted something of its own: the off-list verdicts above are not vacuous
+			rep.Floor("accepted_ok_"+c.ID, 1)
+		}
+	}
 	rep.Floor("refused", 500)
 	rep.Floor("asked_again", 200)
 	rep.Assume("browser behaviour is modelled by a small WHATWG-style reader; strings it cannot decide with certainty (IDNA hosts, forbidden host code points) are not judged")
